@@ -193,6 +193,9 @@ def check(ctx, rep):
                 t = s_.d["target"]
                 if s_.d.get("aug") and t[0] == "attr" and t[2] == csub:
                     nrmw += 1
+                    opnd = s_.d["value"][3] if isinstance(s_.d["value"], tuple) and s_.d["value"][0] == "bin" and len(s_.d["value"]) > 3 else None
+                    unit = _unit_step(s_) or (isinstance(opnd, tuple) and opnd[0] == "param")
+                    rep.ob("R-COUNT", "%s: the counter moves in steps of one" % m.qualname, unit, "`%s %s= %s`: one hand-over / one completion must change the in-flight count by exactly one" % (fmt(t), s_.d["aug"], fmt(opnd) if opnd else "?"), where_of(m, s_.node), trace_of(p, s_.seq))
                     rep.ob("R-COUNT", "%s: counter update under the counter's lock" % m.qualname, any(l[1] == ("attr", t[1], lf) for l in s_.locks for lf in clocks), "`%s %s= ...` is a read-modify-write that runs concurrently with the opposite update on another thread; without the counter's lock one of them is lost" % (fmt(t), s_.d["aug"]), where_of(m, s_.node), trace_of(p, s_.seq))
     rep.require(nrmw >= 1, "in-flight counter: increment / decrement operations not found")
 
@@ -350,6 +353,15 @@ def _update_signs(ctx, ai, meth, call_ev, csub):
 def _decrements(ctx, F, csub):
     ps, it = ctx.paths(F, F.owner, depth=1)
     return any(s_.d.get("aug") == "-" and s_.d["target"][0] == "attr" and s_.d["target"][2] == csub for p in ps for s_ in p.evs("store"))
+
+
+def _unit_step(s_):
+    """is the augmented store a step of exactly one (x += 1, x -= 1, x += -1)?"""
+    v = s_.d["value"]
+    if not (isinstance(v, tuple) and v[0] == "bin" and len(v) > 3):
+        return False
+    o = v[3]
+    return isinstance(o, tuple) and o[0] == "const" and o[1] in (1, -1)
 
 
 def _limits(p, counter, XT, queue_fields):
